@@ -60,6 +60,7 @@ type StreamPlan struct {
 	ErrMsg            string
 	ThenFIN           bool
 	Invalid           []byte // invalid-event payload
+	FirstByte         byte   // status byte in front of the malformed event (0 = OK as for every event; anything but 0xfe / 0xff is not an EOF or ERR packet either)
 	GateAccepted      bool   // the "invalid" payload is a bare 19..22-byte header with a consistent length: the gate accepts it; only "no panic" is judged
 	Second            bool   // a second, short malformed packet follows the injected one at once
 	Invalid2          []byte
@@ -406,7 +407,7 @@ func (m *simMaster) startDump(d *DumpReq, seq byte) {
 		if p.Second {
 			insert(wirePacket{payload: append([]byte{0}, p.Invalid2...), kind: "invalid2"})
 		}
-		insert(wirePacket{payload: append([]byte{0}, p.Invalid...), kind: "invalid"})
+		insert(wirePacket{payload: append([]byte{p.FirstByte}, p.Invalid...), kind: "invalid"})
 	case stopUnsupportedEvent:
 		var body []byte
 		switch p.BadType {
